@@ -80,7 +80,7 @@ PROPS = {
     "C01": {
         "n_quick": 1500, "n_thorough": 37500,
         "technique": 'Coq proof (soundness of the tree matcher by nested induction) + correspondence model ~ implementation ~ declarative priority spec',
-        "level_text": 'proof: C01_dispatch_iff / C01_dispatch_iff_parsed (the latter without any hypothesis, for routes returned by the parser; for every list of accepted registrations, every path and header predicate: dispatched iff some registered route - long or short form - admits the segments and its constraints hold; hence fall-back, never not-found while an admitting route exists), C01_dispatch_sound(_registered), C01_registration_invariant (children sorted by rank with stable insertion, distinct keys, match-all last; exactly the paths of the route itself are added), C01_regex_exact; C01_priority / C01_priority_parsed: the candidates of a request (every match of every registered route whose constraints hold, each with its key (fallback, rank, birth, captured) per depth) are exactly the admitting forms, and the matcher answers with a candidate of least key - static < regex < placeholder < match-all, earlier-registered first among equals (birth = least route id below, C01_birth_is_least_id), fewest captured segments, final match-all last; C01_ordering_invariant (children sorted by (rank, birth)); the brute-force reading of the same order over the route list (RouteSpec.spec_winner) additionally judges the answer of the implementation on every request',
+        "level_text": 'proof: C01_dispatch_iff / C01_dispatch_iff_parsed (the latter without any hypothesis, for routes returned by the parser; for every list of accepted registrations, every path and header predicate: dispatched iff some registered route - long or short form - admits the segments and its constraints hold; hence fall-back, never not-found while an admitting route exists), C01_dispatch_sound(_registered), C01_registration_invariant (children sorted by rank with stable insertion, distinct keys, match-all last; exactly the paths of the route itself are added), C01_regex_exact; C01_priority / C01_priority_parsed: the candidates of a request (every match of every registered route whose constraints hold, each with its key (fallback, rank, birth, captured) per depth) are exactly the admitting forms, and the matcher answers with a candidate of least key - static < regex < placeholder < match-all, earlier-registered first among equals (birth = least route id below, C01_birth_is_least_id), fewest captured segments, final match-all last; C01_ordering_invariant (children sorted by (rank, birth)); C01_router_priority (the same for what the router serves in every reachable state, per method, with header gating); the brute-force reading of the same order over the route list (RouteSpec.spec_winner) additionally judges the answer of the implementation on every request',
         "level_note": 'trusts Coq kernel, extraction, glue; Go regexp is modelled for a fragment (literals, classes, ., concatenation, alternation, greedy * + ? with non-nullable bodies, groups); regex subjects are ASCII; inner groups are non-capturing in the model',
         "rule": 'random registration/Headers/request histories: 1-7 registrations from a collision-rich segment pool (statics incl. regex metacharacters, placeholders, regex segments with several binds / inner groups / random regex ASTs, match-all with capture 1|2|-1|3x, optional last segment, trailing slash), methods GET/other/Any/lower-case, ~8% ill-formed registrations; requests = instances of registered routes (regex parts sampled from the AST), perturbed instances, random segment strings; headers on ~10% of registrations. After a rejected registration the run continues on an instance rebuilt from the accepted operations (AddRoute is not atomic, F11). Non-trivial: a request that >= 2 derivations (routes or capture lengths) admit.',
         "what": 'model (tree insert + match, shortcut, headers) vs ServeHTTP: accept/reject of each registration and chosen route + params of each request; spec: the chosen route equals spec_winner (flat routes x derivations, least key (fallback,rank,birth,captured) per depth)',
@@ -116,7 +116,7 @@ PROPS = {
     "C09": {
         "n_quick": 1500, "n_thorough": 37500,
         "technique": 'Coq proof + correspondence over Headers()/request histories',
-        "level_text": 'proof: C09_gate (a route is returned only if its constraints hold, through any leaf), C09_constrained_leaves_shortcut, C09_replace',
+        "level_text": 'proof: C09_invisible (in every reachable router state the candidates of a request are exactly the matches by routes whose constraints hold for its headers - through the long or short form, any method - and the answer is the least of them, so a route whose constraints fail is invisible), C09_shortcut_too (same through the static shortcut), C09_gate, C09_constrained_leaves_shortcut, C09_replace',
         "level_note": 'trusts Coq kernel, extraction, glue; header regexes in the regex fragment, unanchored search modelled by Regex.search; header names canonical',
         "rule": "random registration/Headers/request histories: 1-7 registrations from a collision-rich segment pool (statics incl. regex metacharacters, placeholders, regex segments with several binds / inner groups / random regex ASTs, match-all with capture 1|2|-1|3x, optional last segment, trailing slash), methods GET/other/Any/lower-case, ~8% ill-formed registrations; requests = instances of registered routes (regex parts sampled from the AST), perturbed instances, random segment strings; Headers() on a third of the routes, re-specified up to 3 times, requests with random header subsets. After a rejected registration the run continues on an instance rebuilt from the accepted operations (AddRoute is not atomic, F11). Non-trivial: some accepted route's constraints fail for a request that reaches a handler.",
         "what": "chosen route of every request vs model; spec: the chosen route's constraints hold and it is the priority winner among routes whose constraints hold (failing ones invisible)",
